@@ -1,4 +1,49 @@
-(** Harness glue for C14 (stub: no families yet). *)
-From Coq Require Import List String.
-From KV Require Import Glue.Val.
-Definition c14_run (fam : string) (args : list val) : option string := None.
+(** Harness glue for C14: one Parser operation vs the free function; split protocols. *)
+From Coq Require Import List ZArith Bool String.
+From KV Require Import Base.Prelude Model.Parser Glue.Val Glue.C13.
+Import ListNotations.
+Local Open Scope string_scope.
+
+Definition show_one (r : pres) : string :=
+  match r with
+  | POk _ p => "ok(" ++ show_bytes (p_str p) ++ ")"
+  | PErr _ => "err"
+  | PPanic => "PANIC"
+  end.
+
+Definition show_proto (r : pres) : string :=
+  match r with
+  | POk (VPiece s) _ => show_bytes s
+  | POk _ _ => "?"
+  | PErr e => show_kind (e_kind e)
+  | PPanic => "PANIC"
+  end.
+
+Definition proto_op (kind : string) (d : list Z) : option pop :=
+  if String.eqb kind "split" then Some (OSplit d)
+  else if String.eqb kind "rsplit" then Some (ORSplit d)
+  else if String.eqb kind "split_terminator" then Some (OSplitTerminator d)
+  else if String.eqb kind "rsplit_terminator" then Some (ORSplitTerminator d)
+  else None.
+
+Definition c14_run (fam : string) (args : list val) : option string :=
+  if String.eqb fam "c14.free" then
+    match args with
+    | [s; op] => match op_of op with
+                 | Some o => Some (show_one (step (parser_new (as_bytes s)) o))
+                 | None => Some "!op"
+                 end
+    | _ => None
+    end
+  else if String.eqb fam "c14.split" then
+    match args with
+    | [s; d; VA kind] =>
+        match proto_op kind (as_bytes d) with
+        | Some o =>
+            let str := as_bytes s in
+            Some (show_list show_proto (run_ops (parser_new str) (repeat o (List.length str + 4))))
+        | None => Some "!kind"
+        end
+    | _ => None
+    end
+  else None.
